@@ -33,6 +33,8 @@ fn gens(n: usize, m: usize, o: usize, k: usize, tier: Tier) -> (TreeGen, TreeGen
             Aff::identity(2),
             Aff::new(vec![vec![0.0, 1.0], vec![1.0, 0.0]], vec![1.0, 0.0]),
             Aff::new(vec![vec![1.0, 1.0], vec![0.0, 0.0]], vec![0.0, -1.0]),
+            // shear: unit diagonal, zero bias, non-zero off-diagonal
+            Aff::new(vec![vec![1.0, 2.0], vec![0.0, 1.0]], vec![0.0, 0.0]),
         ],
     };
     let preds_m: Vec<Aff> = match (m, k) {
@@ -45,7 +47,7 @@ fn gens(n: usize, m: usize, o: usize, k: usize, tier: Tier) -> (TreeGen, TreeGen
         (1, 1) => vec![r1(&[1.0], 0.0), r1(&[2.0], -1.0), r1(&[0.0], 0.5)],
         (2, 1) => vec![r1(&[1.0, -1.0], 0.0), r1(&[0.0, 0.0], 1.0), r1(&[0.5, 0.0], 2.0)],
         (1, _) => vec![Aff::new(vec![vec![1.0], vec![0.0]], vec![0.0, 1.0]), Aff::new(vec![vec![-1.0], vec![2.0]], vec![0.5, 0.0])],
-        _ => vec![Aff::identity(2), Aff::new(vec![vec![0.0, -1.0], vec![2.0, 0.0]], vec![0.0, 1.0])],
+        _ => vec![Aff::identity(2), Aff::new(vec![vec![0.0, -1.0], vec![2.0, 0.0]], vec![0.0, 1.0]), Aff::new(vec![vec![1.0, 0.0], vec![-1.0, 1.0]], vec![0.0, 0.0])],
     };
     let (fd, fn_, gd, gn) = match (tier, k) {
         (Tier::Quick, 2) => (2, 5, 2, 5),
@@ -87,7 +89,7 @@ pub fn cases(tier: Tier) -> Vec<Case> {
             let gs = thin(gg.all(), eg);
             for (i, f) in fs.iter().enumerate() {
                 for (j, g) in gs.iter().enumerate() {
-                    out.push(Case::Compose { k, f: f.clone(), g: g.clone(), layout: ((i + j) % 3) as u8 });
+                    out.push(Case::Compose { k, f: f.clone(), g: g.clone(), layout: ((i + j) % 4) as u8 });
                 }
             }
             if k == 2 {
@@ -103,19 +105,15 @@ pub fn cases(tier: Tier) -> Vec<Case> {
 }
 
 fn build<const K: usize>(s: &TSpec, layout: u8) -> AffTree<K> {
-    match layout {
-        0 => s.build::<K>(),
-        1 => s.build_bfs::<K>(),
-        _ => s.build_scrambled::<K>(),
-    }
+    s.build_layout::<K>(layout)
 }
 
 fn check_compose<const K: usize>(f: &TSpec, g: &TSpec, layout: u8, apply: Option<&Aff>) -> CaseOut {
     let mut out = CaseOut::default();
     let ft: AffTree<K> = build::<K>(f, layout);
     let gt: AffTree<K> = match apply {
-        Some(a) => AffTree::<K>::from_aff(a.to_real()),
-        None => build::<K>(g, (layout + 1) % 3),
+        Some(a) => AffTree::<K>::from_aff(if layout % 2 == 1 { a.to_real_f() } else { a.to_real() }),
+        None => build::<K>(g, layout + 1),
     };
     let sf = snap(&ft);
     let sg = snap(&gt);
@@ -185,7 +183,7 @@ pub fn run_case(c: &Case) -> CaseOut {
     match c {
         Case::Compose { k: 2, f, g, layout } => check_compose::<2>(f, g, *layout, None),
         Case::Compose { f, g, layout, .. } => check_compose::<4>(f, g, *layout, None),
-        Case::Apply { f, a } => check_compose::<2>(f, f, 0, Some(a)),
+        Case::Apply { f, a } => check_compose::<2>(f, f, (f.n_nodes() % 4) as u8, Some(a)),
     }
 }
 
